@@ -27,7 +27,7 @@ ASSUMPTIONS = ['subunit (forces --buffer) is not installed and not covered',
 FLOORS = {'tokens_hidden_checked': 1500, 'tokens_shown_checked': 1500,
           'probes_between_tests': 3000, 'probes_in_tests_buffered': 2000,
           'probes_unbuffered': 500, 'multi_event_tests': 200,
-          'class_fixture_events': 300}
+          'class_fixture_events': 300, 'probes_in_layer_subprocess': 300}
 BATCH_TIMEOUT = 300
 
 KINDS = ['pass', 'fail', 'error', 'setup_error', 'teardown_error',
@@ -80,6 +80,9 @@ def cases(tier, seed):
                     'buffer': rng.random() < 0.75,
                     'verbose': rng.randint(0, 3),
                     'cli': rng.random() < (0.01 if tier == 'quick' else 0.03)})
+        # the layer in a subprocess (-j 2): what a failing test wrote comes
+        # back through the child's stdout
+        out[-1]['sub'] = (not out[-1]['cli']) and rng.random() < 0.05
     return out
 
 
@@ -169,6 +172,8 @@ def run_case(case):
     opts = {'verbose': case['verbose']}
     if case['buffer']:
         opts['buffer'] = True
+    if case.get('sub'):
+        opts['processes'] = 2
     # the XML formatting wrapper sits between the result and the formatter
     # that prints the captured output: a sixth of the runs go through it
     xml = rng.random() < 0.17
@@ -201,6 +206,20 @@ def run_case(case):
     if case['cli']:
         text = w.out + w.err
     modname = spec['modules'][0]['name']
+    # ---------------- identity probes that work in every process: the
+    # streams between tests are the objects that were there when the first
+    # layer of that process was set up
+    for e in w.events:
+        if e['k'] in ('layer.testSetUp', 'layer.testTearDown') and \
+                e.get('out_same') is not None:
+            C('probes_vs_layer_setup')
+            if case.get('sub'):
+                C('probes_in_layer_subprocess')
+            if e.get('out_same') is False or e.get('err_same') is False:
+                V('streams-between-tests-not-those-at-layer-setup',
+                  'buffer-not-restored-between-tests', where=e['k'],
+                  layer=e.get('layer'), out=e.get('out_same'),
+                  err=e.get('err_same'), sub=bool(case.get('sub')))
     # ---------------- identity probes (in-process only)
     if not case['cli']:
         for e in w.events:
